@@ -20,7 +20,9 @@ import (
 type walkInfo struct {
 	cut      int
 	exitPos  []string // exit positions of the pointers used after the loop, sorted
+	slotExit map[string]lin // exit position of every pointer slot ("k.j")
 	touched  []string // positions of every pointer expression (pointer, pointer.next, …) the code after the loop mentions
+	valuePos []string // positions of the pointers whose value field the loop's exit paths access
 	bound    string
 	describe string
 }
@@ -52,10 +54,14 @@ func ruleR33(c *Ctx) *RuleResult {
 			ks = append(ks, k)
 		}
 		sort.Ints(ks)
+		foreign := map[string]lin{}
 		for _, k := range ks {
-			w, b, ok := analyseWalk(gc, k)
+			w, b, ok := analyseWalk(gc, k, foreign)
 			if !ok {
 				continue
+			}
+			for leafName, v := range w.slotExit {
+				foreign[leafName] = v
 			}
 			bad = append(bad, b...)
 			walks = append(walks, w)
@@ -63,30 +69,35 @@ func ruleR33(c *Ctx) *RuleResult {
 		if len(walks) == 0 {
 			continue
 		}
+		// (a)/(b) apply to operations on one requested index (Get, Set, Remove, Insert, …): an int parameter in position 1 and
+		// no second int parameter (Swap picks two positions and is judged by R38)
+		single := len(fn.Params) >= 2
+		if single {
+			if _, _, isInt := intBits(fn.Params[1].Type()); !isInt {
+				single = false
+			}
+			if len(fn.Params) >= 3 {
+				if _, _, isInt := intBits(fn.Params[2].Type()); isInt {
+					single = false
+				}
+			}
+		}
 		// (a) agreement between the walks of one function towards the same bound
-		for i := 1; i < len(walks); i++ {
+		for i := 1; single && i < len(walks); i++ {
 			if strings.Join(walks[i].exitPos, ",") != strings.Join(walks[0].exitPos, ",") {
 				bad = append(bad, fmt.Sprintf("the walks of this function land on different positions: %s — versus %s", walks[0].describe, walks[i].describe))
 			}
 		}
-		// (b) the code after the walk touches the element at the bound (a pointer that landed there, or the neighbour of one
-		// that landed next to it)
+		// (b) where the code right after a walk reads or writes an element's value through a walked pointer (Get, Set), that
+		// pointer stands on the requested index
 		for _, w := range walks {
-			hit := false
-			target := w.bound
-			if len(fn.Params) >= 2 {
-				if _, _, isInt := intBits(fn.Params[1].Type()); isInt {
-					target = "p:1" // the requested index
-				}
+			if !single {
+				break
 			}
-			w.bound = target
-			for _, e := range w.touched {
-				if e == target {
-					hit = true
+			for _, vp := range w.valuePos {
+				if vp != "p:1" {
+					bad = append(bad, fmt.Sprintf("the element whose value is accessed after the walk is at position %s, not at the requested index: %s", vp, w.describe))
 				}
-			}
-			if !hit && len(w.exitPos) > 0 {
-				bad = append(bad, fmt.Sprintf("after the walk nothing at the requested position %s is touched: %s", w.bound, w.describe))
 			}
 		}
 		key := p.FuncKey(fn)
@@ -112,7 +123,7 @@ func atoiOr(s string, d int) int {
 }
 
 // analyseWalk: cut k is a counting pointer walk; returns its description and the violations of the invariant.
-func analyseWalk(gc *GCNF, k int) (walkInfo, []string, bool) {
+func analyseWalk(gc *GCNF, k int, foreign map[string]lin) (walkInfo, []string, bool) {
 	ks := itoa(k)
 	var entries, backs, exits []*GC
 	for _, g := range gc.GCs {
@@ -163,6 +174,11 @@ func analyseWalk(gc *GCNF, k int) (walkInfo, []string, bool) {
 		switch {
 		case t.Op == "φ" && strings.HasPrefix(t.Leaf, ks+"."):
 			return linAtom("P" + t.Leaf[len(ks)+1:]), false, true
+		case t.Op == "φ":
+			// a pointer that an earlier walk of the same function left at a known position
+			if v, ok := foreign[t.Leaf]; ok {
+				return v, false, true
+			}
 		case t.String() == "#:nil":
 			return lin{}, true, true
 		case t.Op == "load" && len(t.Args) == 1 && t.Args[0].Op == "fa" && len(t.Args[0].Args) == 1:
@@ -372,6 +388,7 @@ func analyseWalk(gc *GCNF, k int) (walkInfo, []string, bool) {
 		return walkInfo{}, bad, len(bad) > 0
 	}
 	// pointers used after the loop
+	slotExit := map[string]lin{}
 	var exitPos []string
 	var parts []string
 	for _, s := range slots {
@@ -392,6 +409,7 @@ func analyseWalk(gc *GCNF, k int) (walkInfo, []string, bool) {
 				}
 			}
 		}
+		slotExit[ks+"."+itoa(s.j)] = exitVal.add(s.d, 1)
 		if used {
 			ep := exitVal.add(s.d, 1)
 			exitPos = append(exitPos, ep.String())
@@ -422,10 +440,16 @@ func analyseWalk(gc *GCNF, k int) (walkInfo, []string, bool) {
 		}
 		return lin{}, false
 	}
+	var valuePos []string
 	for _, e := range exits {
 		visit := func(t *Term) bool {
 			if v, ok := posAfter(t); ok {
 				touched = append(touched, v.String())
+			}
+			if t.Op == "fa" && t.Leaf == "value" && len(t.Args) == 1 {
+				if v, ok := posAfter(t.Args[0]); ok {
+					valuePos = append(valuePos, v.String())
+				}
 			}
 			return false
 		}
@@ -442,5 +466,5 @@ func analyseWalk(gc *GCNF, k int) (walkInfo, []string, bool) {
 	if step < 0 {
 		dir = "down"
 	}
-	return walkInfo{cut: k, exitPos: exitPos, touched: touched, bound: bound.String(), describe: fmt.Sprintf("loop %d counts %s to %s: %s", k, dir, bound.String(), strings.Join(parts, ", "))}, bad, true
+	return walkInfo{cut: k, exitPos: exitPos, touched: touched, valuePos: valuePos, slotExit: slotExit, bound: bound.String(), describe: fmt.Sprintf("loop %d counts %s to %s: %s", k, dir, bound.String(), strings.Join(parts, ", "))}, bad, true
 }
